@@ -342,6 +342,34 @@ def run(ctx):
                         rw.violate(k2, "non-silent rule does not wrap its inner match in record(rule = its own RULE, position = start)", loc, edt.fmt(t))
     rp.require(4, "look-ahead functions")
     rw.require(20, "rule struct functions")
+    # ---- the end-of-input attempt of the full-parse wrappers is recorded at the cursor where it is tested
+    from . import c04
+    re_ = ctx.rule("R10-EOI", "full-parse wrappers record the end-of-input attempt under Rule::EOI at the position where it is tested "
+                              "(after prefix match and trailing skip), never before the consumed prefix")
+    for im in world.impls(nodes.PTN_TRAIT):
+        name = im.self_adt()[0].rsplit("::", 1)[-1]
+        want = True if name in c04.SKIPPING_FIXTURE_RULES else (False if name in c04.ATOMIC_FIXTURE_RULES else None)
+        self_ty = world.ev.render(im.crate, im.item["self_ty"], {})
+        for meth in ("try_parse_with", "try_check_with"):
+            fid = im.methods.get(meth)
+            if fid is None:
+                continue
+            t = world.tree(fid)
+            ok, why, info = c04.wrap_shape(t, self_ty, None)
+            k2 = "%s::%s" % (im.key(), meth)
+            if ok:
+                re_.inst(k2, im.loc, "ok", info)
+            else:
+                re_.violate(k2, why, im.loc, edt.fmt(t))
+    for fn in ("parse", "check", "parse_without_ignore", "check_without_ignore"):
+        fid = "pest_typed::rule::" + fn
+        t = world.tree(fid)
+        ok, why, info = c04.wrap_shape(t, "_Self", None)
+        if ok:
+            re_.inst(fid, world.fn_loc(fid), "ok", info)
+        else:
+            re_.violate(fid, why, world.fn_loc(fid), edt.fmt(t))
+    re_.require(24, "wrapper functions")
 
     # ---- panic inventory from collect
     rpn = ctx.rule("R10-PANIC", "panic-capable sites reachable from Tracker::collect are discharged; collect validates the position with pest::Position::new")
